@@ -269,7 +269,7 @@ def extract_unit(repo, unit_dir, out_path, variant=None):
         for rw in spec.get('rewrites', []):
             if 'only' in rw and it['name'] not in rw['only']:
                 continue
-            rx = re.compile(rw['pattern'])
+            rx = re.compile(rw['pattern'], re.M if rw.get('multiline') else 0)
             text = segs.text()
             m2 = rl.code_mask(text)
             hits = [mm for mm in rx.finditer(text) if m2[mm.start()] or rw.get('in_noncode')]
@@ -306,6 +306,8 @@ def extract_unit(repo, unit_dir, out_path, variant=None):
             origin.append(org)
     emit('// GENERATED by vx/extract.py from %s -- do not edit' % repo, {'kind': 'gen'})
     emit('#![allow(unused_imports, dead_code, unused_variables, unused_mut, unused_assignments)]', {'kind': 'gen'})
+    for ca in spec.get('crate_attrs', []):
+        emit(ca, {'kind': 'gen'})
     emit('use vstd::prelude::*;', {'kind': 'gen'})
     for u in spec.get('uses', []):
         emit(u, {'kind': 'gen'})
